@@ -111,6 +111,13 @@ class Problems:
         cm = rs.randn(K, 2) * 2 + [1.5, 1.0]
         pr["Xl"] = np.concatenate([cm[k] + 0.8 * rs.randn(3, 2) for k in range(K)])
         pr["yl"] = np.repeat(np.arange(K), 3)
+        if d % 2 == 0:
+            # tied occupancies (round eight): the observations of the even problems lie far out on either side of the
+            # UBM (~60 units), so every posterior saturates to exactly 0 / 1 and many sessions have bit-identical
+            # zeroth-order statistics with different first-order ones -- anything keyed on, or shared between,
+            # sessions that "look the same" then depends on the order in which the sessions are visited
+            side = np.where(np.arange(3 * K) % 2 == 0, -1.0, 1.0)[:, None]
+            pr["Xl"] = pr["Xl"] + side * np.array([60.0, 55.0])
         pr["fa"] = dict(r_U=2, r_V=1, em_iterations=2) if d % 2 else dict(r_U=1, r_V=2, em_iterations=1)
         pr["ubm"] = dict(means=np.array([[0.0, 0.0], [3.0, 2.0]]), variances=np.array([[1.0, 0.5], [0.7, 1.2]]),
                          weights=np.array([0.4, 0.6]))
